@@ -163,9 +163,11 @@ fn _parse_with_lexer_ctx(lexer: &mut Lexer, r: &impl Resolve, ctx: Option<&Conte
         // First backup position
         let pos_bk = lexer.get_pos();
 
-        let second_lexeme = t!(lexer.next());
+        let second_lexeme = t!(lexer.peek());
+        let _ = lexer.next();
         if second_lexeme.is_integer() {
-            let third_lexeme = t!(lexer.next());
+            let third_lexeme = t!(lexer.peek());
+            let _ = lexer.next();
             if third_lexeme.equals(b"R") {
                 // It is indeed a reference to an indirect object
                 check(flags, ParseFlags::REF)?;
